@@ -7,9 +7,9 @@ def sh(cmd, cwd, timeout=1800):
     p = subprocess.run(cmd, shell=True, cwd=cwd, stdout=subprocess.PIPE, stderr=subprocess.STDOUT, text=True, timeout=timeout, env=ENV)
     return p.returncode, p.stdout
 def one(prop):
-    wt = '/tmp/mut/%s' % prop
+    wt = os.environ.get('SEED_WT', '/tmp/mut/%s') % prop
     out = {}
-    for m in sorted(glob.glob('/tmp/mut/%s.out/mut*' % prop)):
+    for m in sorted(glob.glob('/tmp/mut/%s.out/%s' % (prop, os.environ.get('SEED_ONLY', 'mut*')))):
         n = os.path.basename(m).replace('mut', '')
         sid = '%s-%s' % (prop, n)
         sh('git checkout -- . && git clean -fdq -e target', wt)
@@ -34,7 +34,10 @@ def main():
     res = {}
     with concurrent.futures.ThreadPoolExecutor(max_workers=3) as ex:
         for r in ex.map(one, props): res.update(r)
-    os.makedirs('/root/seedres', exist_ok=True)
-    json.dump(res, open('/root/seedres/confirm.json', 'w'), indent=1)
+    outp = os.environ.get('SEED_CONFIRM_OUT', '/root/seedres/confirm.json')
+    os.makedirs(os.path.dirname(outp), exist_ok=True)
+    old = json.load(open(outp)) if os.path.exists(outp) and os.environ.get('SEED_ONLY') else {}
+    old.update(res)
+    json.dump(old, open(outp, 'w'), indent=1)
 if __name__ == '__main__':
     main()
